@@ -1,12 +1,12 @@
 package svc
 
 import (
-	"os"
 	"errors"
 	"fmt"
 	"github.com/spq/pkappa2/internal/index/converters"
 	"github.com/spq/pkappa2/internal/tools/bitmask"
 	"github.com/spq/pkappa2/verifx/mc"
+	"os"
 	"path/filepath"
 	"sort"
 	"strconv"
